@@ -41,6 +41,10 @@ func newExp() Exp {
 
 func fullArchEq(a dependency.Arch, name string) bool {
 	m, _ := archModel(name)
+	if strings.HasPrefix(m.ABI, "?") {
+		// concrete two-part name: some definite ABI, whichever the default is
+		return a.ABI != "any" && a.ABI != "all" && a.ABI != "" && a.OS == m.OS && a.CPU == m.CPU
+	}
 	return a.ABI == m.ABI && a.OS == m.OS && a.CPU == m.CPU
 }
 
